@@ -18,7 +18,6 @@ fn main() {
     match args[1].as_str() {
         "trace" => trace(&args[2..]),
         "sym" => sym::main(&args[2..]),
-        "stack" => extra::stack_main(&args[2..]),
         "dropprobe" => extra::dropprobe_main(&args[2..]),
         "replay" => replay(&args[2..]),
         _ => {
